@@ -36,19 +36,19 @@ theorem readCStr_append (s rest : Bytes) (h : ∀ b ∈ s, b ≠ 0) :
 
 theorem orAll_append (a b : List UInt8) : orAll (a ++ b) = orAll a ||| orAll b := by
   induction a with
-  | nil => simp only [List.nil_append, orAll]; bv_decide
-  | cons x a ih => simp only [List.cons_append, orAll, ih]; bv_decide
+  | nil => simp only [List.nil_append, orAll]; bv_decide (timeout := 300)
+  | cons x a ih => simp only [List.cons_append, orAll, ih]; bv_decide (timeout := 300)
 
 theorem orAll_mask_zero (l : List UInt8) (m : UInt8) (h : ∀ x ∈ l, x &&& m = 0) :
     orAll l &&& m = 0 := by
   induction l with
-  | nil => simp only [orAll]; bv_decide
+  | nil => simp only [orAll]; bv_decide (timeout := 300)
   | cons x l ih =>
     have h1 := h x (List.mem_cons_self ..)
     have h2 := ih (fun y hy => h y (List.mem_cons_of_mem _ hy))
     simp only [orAll]
     generalize orAll l = r at h2 ⊢
-    bv_decide
+    bv_decide (timeout := 300)
 
 /-- only one item contributes (under mask `m`) -/
 theorem orAll_single (pre post : List UInt8) (x m : UInt8)
@@ -59,7 +59,7 @@ theorem orAll_single (pre post : List UInt8) (x m : UInt8)
   simp only [orAll_append, orAll]
   generalize orAll pre = p at a ⊢
   generalize orAll post = q at b ⊢
-  bv_decide
+  bv_decide (timeout := 300)
 
 theorem compat_symm {a b : Column} (h : compat a b) : compat b a := by
   rcases h with h | h | h
@@ -112,8 +112,8 @@ theorem contrib_self (it : Item) (hj : ItemOK it) (hp : isPacked it.col.ty = fal
     rw [if_pos (by omega), show off.toNat + k - off.toNat = k by omega, List.getElem?_eq_getElem hk]
   cases ty <;> first | exact key | (exfalso; simp [isPacked] at hp)
 
-theorem and_255 (x : UInt8) : x &&& 255 = x := by bv_decide
-theorem zero_and (m : UInt8) : (0 : UInt8) &&& m = 0 := by bv_decide
+theorem and_255 (x : UInt8) : x &&& 255 = x := by bv_decide (timeout := 300)
+theorem zero_and (m : UInt8) : (0 : UInt8) &&& m = 0 := by bv_decide (timeout := 300)
 
 /-- a non-packed column's bytes appear unchanged in the region -/
 theorem regionByte_nonpacked (pre post : List Item) (it : Item)
